@@ -86,7 +86,11 @@ MISSED14 = {"C03/2": "workers only failed with exceptions of their own; added wo
             "C17/1": "no dotted path had a component with a leading underscore; added tpsim.ctlworkers._hidden",
             "C18/2": "workers of the control simulation never failed; a gate can now be resolved with an exception, so flush / gather-and-close without --return-exceptions have an error to answer with",
             "C19/2": "the bundled client only ever received short replies; a share of its scripts now starts with commands answered by several KiB (1200 task ids), followed by ordinary ones - every reply must be printed under its own command"}
-MISSED = MISSED14 if ROUND == 14 else MISSED13 if ROUND == 13 else MISSED12 if ROUND == 12 else MISSED11 if ROUND == 11 else MISSED10 if ROUND == 10 else MISSED9 if ROUND == 9 else MISSED8 if ROUND == 8 else MISSED7 if ROUND == 7 else MISSED6 if ROUND == 6 else {} if ROUND != 5 else {"C01/1": "the pool generator never assigned pool_size to an empty pool; added the resize_idle step (size assigned while the pool is empty, all C01 oracles continue with the new size)",
+MISSED15 = {"C08/1": "every callback was hashable; added callback kind su: a callable object that defines __eq__ and therefore has no __hash__",
+            "C11/1": "the id parameter of a callback never had a default value; added callback kinds sd/ad/gd (`def cb(task_id=-1)`): the id is passed all the same"}
+NOTCAUGHT15 = {"C11/2": "not a C11 matter: C11 fixes ids, names and the id passed to callbacks, not what get_group_ids() reports; the change (one id set shared by all group registers) is caught by ./check C10 (group_ids), which is listed as the detecting check",
+               "C14/1": "the same edit as C01-27 and C15-27 (a yield before the register's lock): it widens the window in which a task can be cancelled before its first step, i.e. it reaches the recorded finding F-EARLY in more schedules; C14's runs treat such a cancellation as F-EARLY (steered in clean runs, tolerated in unsteered ones), so C14 does not report it - the leaked slot is reported by ./check C01 (is_full) and ./check C02 (capacity), which are listed as the detecting checks"}
+MISSED = MISSED15 if ROUND == 15 else MISSED14 if ROUND == 14 else MISSED13 if ROUND == 13 else MISSED12 if ROUND == 12 else MISSED11 if ROUND == 11 else MISSED10 if ROUND == 10 else MISSED9 if ROUND == 9 else MISSED8 if ROUND == 8 else MISSED7 if ROUND == 7 else MISSED6 if ROUND == 6 else {} if ROUND != 5 else {"C01/1": "the pool generator never assigned pool_size to an empty pool; added the resize_idle step (size assigned while the pool is empty, all C01 oracles continue with the new size)",
           "C03/2": "callbacks were always closures; added callbacks that are bound methods of an object nothing else refers to (kinds sm/am/gm)",
           "C04/1": "the injected factory failure was always a FactoryError; the exception type now varies (FactoryError, TypeError, ValueError, KeyError, AttributeError)",
           "C04/2": "payload keyword names were always kw_x; added payload shapes whose keyword names coincide with the library's own parameter names (group_name, func, num, end_callback, self, args, kwargs ...)",
@@ -95,7 +99,7 @@ MISSED = MISSED14 if ROUND == 14 else MISSED13 if ROUND == 13 else MISSED12 if R
           "C15/2": "the size family only assigned pool_size to busy pools; added the idle-assignment variant (assignment on the empty pool, then work; second phase back to another size) with oracle assigned_limit_in_force",
           "C16/1": "SimNet only had IPv4-style 2-tuple socket names; hosts '::1' / 'fe80::1%eth0' now give 4-tuple peer and socket names",
           "C16/2": "the extended class had no public staticmethod; added slots_for"}
-NOTCAUGHT = NOTCAUGHT10 if ROUND == 10 else {} if ROUND != 5 else {"C11/2": "NOT DETECTED: needs asyncio.eager_task_factory as the loop's task factory; SimLoop always uses its own (lazy) task factory, eager start is a loop configuration the simulator does not offer (DESIGN.md section 9)"}
+NOTCAUGHT = NOTCAUGHT15 if ROUND == 15 else NOTCAUGHT10 if ROUND == 10 else {} if ROUND != 5 else {"C11/2": "NOT DETECTED: needs asyncio.eager_task_factory as the loop's task factory; SimLoop always uses its own (lazy) task factory, eager start is a loop configuration the simulator does not offer (DESIGN.md section 9)"}
 def run(prop, k, outk):
     wt = f"/tmp/wt/{prop}"
     S = tempfile.mkdtemp(prefix="seedchk-")
